@@ -135,11 +135,16 @@ def run_case(case, rec):
     eq_type = "nonstatio_PDE" if with_t else "statio_PDE"
     flist = _fields_for(case)
     f0 = flist[0][1]
+    # one case in three carries its field in a subclass of the wrapper class (as the library's HYPERPINN is a
+    # subclass of PINN): the operators must treat it as its base class
+    sub = (case["seed"] + d + with_t + n_out + len(op) + (case["fam"] == "mono")) % 3 == 1
+    if sub:
+        rec.count("fields_in_a_wrapper_subclass")
     if mode == "rev":
-        u = fields.make_pinn(f0.module(), eq_type, n_out)
+        u = fields.make_pinn(f0.module(), eq_type, n_out, subclass=sub)
         B = None
     else:
-        u = fields.make_spinn(f0.spinn_module(), eq_type, D, f0.r, f0.m)
+        u = fields.make_spinn(f0.spinn_module(), eq_type, D, f0.r, f0.m, subclass=sub)
         # per-axis batch sizes below, equal to and above the number of coordinates
         hsh = case["seed"] + 7 * d + 3 * with_t + n_out + len(op)
         B = [1, 2][hsh % 2] if D >= 3 else [1, 2, 3][hsh % 3]
@@ -202,7 +207,7 @@ def run_case(case, rec):
             import equinox as eqx
             nn = eqx.partition(f.spinn_module(), eqx.is_inexact_array)[0]
             key = "fwd%d" % f.r
-            uu = fields.make_spinn(f.spinn_module(), eq_type, D, f.r, f.m)
+            uu = fields.make_spinn(f.spinn_module(), eq_type, D, f.r, f.m, subclass=sub)
         if key not in jitted:
             jitted[key] = jax.jit(build(uu))
         call = jitted[key]
@@ -217,14 +222,16 @@ def run_case(case, rec):
         else:
             eqs = [{"junk": jnp.asarray(1.0), "vec": jnp.ones(3)},
                    {"junk": jnp.asarray(-37.5), "vec": jnp.arange(3.0) * 11.0}]
+        # the advection operator is documented for 2-D only; everywhere else a refusal is a failure
+        gcall = guard.call if (op in ("adv", "adv_ns") and d != 2) else guard.call_supported
         for ip in range(n_pts):
             if mode == "rev":
                 z = rng.uniform(lo, hi, D)
                 t = jnp.asarray(z[:1]) if with_t else jnp.zeros((1,))
                 x = jnp.asarray(z[with_t:])
                 try:
-                    got = np.asarray(guard.call(call, nn, eqs[0], t, x))
-                    got2 = np.asarray(guard.call(call, nn, eqs[1], t, x))
+                    got = np.asarray(gcall(call, nn, eqs[0], t, x))
+                    got2 = np.asarray(gcall(call, nn, eqs[1], t, x))
                 except guard.Unsupported as uerr:
                     rec.unsupp("%s d=%d: %s" % (op, d, uerr.reason))
                     return
@@ -235,8 +242,8 @@ def run_case(case, rec):
                 t = jnp.asarray(cols[:, :1]) if with_t else jnp.zeros((B, 1))
                 x = jnp.asarray(cols[:, with_t:])
                 try:
-                    got = np.asarray(guard.call(call, nn, eqs[0], t, x))
-                    got2 = np.asarray(guard.call(call, nn, eqs[1], t, x))
+                    got = np.asarray(gcall(call, nn, eqs[0], t, x))
+                    got2 = np.asarray(gcall(call, nn, eqs[1], t, x))
                 except guard.Unsupported as uerr:
                     rec.unsupp("%s d=%d: %s" % (op, d, uerr.reason))
                     return
